@@ -675,7 +675,35 @@ def norm(e, depth=0):
     if depth > 80 or not e.args:
         return e
     n = E(e.k, e.name, [norm(a, depth + 1) for a in e.args], e.site, e.ty, e.c)
+    n = _prim_operator(n)
     return simplify_slices(simplify_variant(n))
+
+
+_PRIM_OPS = {'shr': 'Shr', 'shl': 'Shl', 'bitand': 'BitAnd', 'bitor': 'BitOr', 'bitxor': 'BitXor', 'add': 'Add', 'sub': 'Sub', 'mul': 'Mul',
+             'div': 'Div', 'rem': 'Rem', 'not': 'Not', 'neg': 'Neg'}
+_PRIM_TYS = ('u8', 'u16', 'u32', 'u64', 'u128', 'usize', 'i8', 'i16', 'i32', 'i64', 'i128', 'isize')
+
+
+def _prim_operator(e):
+    """`<&u64 as Shr<i32>>::shr(x, n)` (an operator applied to a reference to a primitive integer goes through the trait
+    impl) is the built-in operation: rendered and analysed like `x >> n`"""
+    import re as _re
+    if e.k != 'call' or not e.name or not e.name.startswith('core::ops::'):
+        return e
+    m = _re.match(r'^core::ops::\w+::<impl std::ops::(\w+)(?:<([^>]*)>)? for (&?(?:mut )?)(\w+)>::(\w+)$', e.name)
+    if not m:
+        return e
+    trait, rhs, _, self_ty, meth = m.groups()
+    if self_ty not in _PRIM_TYS or meth not in _PRIM_OPS:
+        return e
+    if rhs and rhs.lstrip('&').strip() not in _PRIM_TYS:
+        return e
+    op = _PRIM_OPS[meth]
+    if len(e.args) == 2:
+        return E('binop', op, e.args, e.site, e.ty, None)
+    if len(e.args) == 1 and op in ('Not', 'Neg'):
+        return E('unop', op, e.args, e.site, e.ty, None)
+    return e
 
 
 _BRANCH_OK = {'std::result::Result': ('Ok', 'Err'), 'std::option::Option': ('Some', 'None')}
